@@ -516,6 +516,12 @@ class Loader:
         """Restore placements after reload."""
         integrity = collections.defaultdict(list)
 
+        # Placement of a server that is not (or no longer) part of the cell is
+        # stale: nothing will ever visit it again.
+        for servername in set(self.backend.list(z.PLACEMENT)) - set(self.servers):
+            for appname in self.get_placed_apps(servername):
+                self.backend.delete(z.path.placement(servername, appname))
+
         for servername in self.servers:
             _placed_apps, restored_apps = self.restore_placement(servername)
             for appname in restored_apps:
